@@ -18,9 +18,9 @@ def main():
         res = json.load(open(os.path.join(d, "result.json"))) if os.path.exists(os.path.join(d, "result.json")) else {}
         files = ", ".join(os.path.basename(f) for f in meta.get("files", [])) or "?"
         what = (meta.get("summary") or "").replace("\n", " ").replace("|", "/")
-        what = what[:230] + ("…" if len(what) > 230 else "")
+        what = what[:170] + ("…" if len(what) > 170 else "")
         needs = (meta.get("needs") or "").replace("\n", " ").replace("|", "/")
-        needs = needs[:200] + ("…" if len(needs) > 200 else "")
+        needs = needs[:150] + ("…" if len(needs) > 150 else "")
         det = []
         for pid, c in res.get("checks", {}).items():
             keys = ""
